@@ -2,7 +2,7 @@
 import re
 
 from ..mir import MissingAnchor, sym_contains, norm
-from ..rules import render, aggregates, last_seg, bool_switches, must_pass, switch_edges, str_consts, compares
+from ..rules import lifted, render, aggregates, last_seg, bool_switches, must_pass, switch_edges, str_consts, compares
 from .. import proto
 
 EXPLANATION = ("TABLE (three-way agreement) and PROTO rules over the resolved MIR: for each of the eight anchor wrapper types the "
@@ -211,19 +211,25 @@ def rule_anchor_consumed(ctx, fx, config):
     before it writes (write_scalar_prefix_if_anchor), otherwise the anchor sticks to whatever node is written next and
     the alias silently resolves to a neighbour."""
     S = "<&mut ser::YamlSerializer as serde::Serializer>::"
-    PREFIX = "ser::YamlSerializer::write_scalar_prefix_if_anchor"
     n = 0
+
+    def takes_anchor(g, b, t):
+        # `self.pending_anchor_id.take()`: the staged anchor is consumed here (by whichever helper does it)
+        return last_seg(fx.callee(t)) == "take" and t["args"] and render(g.sym_operand(t["args"][0])).endswith("pending_anchor_id")
+
+    def anchor_takers(g):
+        return lifted(fx, g, takes_anchor, depth=2)
     for nm in ("bool", "i64", "u64", "i128", "u128", "f32", "f64", "none", "unit"):
         f = fx.fn(S + "serialize_" + nm)
         ctx.saw(f)
         n += 1
-        pre = [b for b, t in f.calls() if fx.callee(t) == PREFIX]
+        pre = anchor_takers(f)
         writes = [b for b, t in f.calls() if last_seg(fx.callee_decl(t)) in ("write_str", "write_fmt", "write_char") or fx.callee(t).endswith("::push_float_string") or "zmij" in fx.callee(t)]
         ctx.check(bool(pre) and bool(writes) and all(any(f.dominates(p, w) for p in pre) for w in writes), "ANCHOR", "C14:ANCHOR:scalar-emitter:serialize_%s" % nm, "the staged anchor is emitted before the scalar's text",
                   "serialize_%s writes its scalar without emitting a staged anchor first: `&aN` sticks to the next node written and the alias resolves to that neighbour" % nm, config, ctx.where(f))
     f = fx.fn(S + "serialize_str")
     ctx.saw(f)
-    pre = [b for b, t in f.calls() if fx.callee(t) == PREFIX]
+    pre = anchor_takers(f)
     for ch, what in (("|", "literal"), (">", "folded")):
         hs = [b for b, t in f.calls() if last_seg(fx.callee_decl(t)) == "write_char" and len(t["args"]) > 1 and f.sym_operand(t["args"][1])[:2] == ("const", ch)]
         n += 1
@@ -233,6 +239,19 @@ def rule_anchor_consumed(ctx, fx, config):
     ctx.check(bool(plain) and all(any(f.dominates(p, w) for p in pre) for w in plain), "ANCHOR", "C14:ANCHOR:scalar-emitter:serialize_str:plain-or-quoted", "the staged anchor is emitted before a plain / quoted string",
               "serialize_str writes a plain / quoted string without emitting a staged anchor first", config, ctx.where(f))
     ctx.floor("ANCHOR.scalar-emitters", n, 11, config)
+    # a variant with a payload is a node of its own (the one-entry mapping `Variant: payload`): a staged anchor is consumed
+    # before the variant's label is written, otherwise it lands on the first scalar of the payload and the alias reads back
+    # as that scalar (F61)
+    nv = 0
+    for nm in ("newtype_variant", "tuple_variant", "struct_variant"):
+        f = fx.fn(S + "serialize_" + nm)
+        ctx.saw(f)
+        pre = anchor_takers(f)
+        labels = [b for b, t in f.calls() if (fx.callee(t).endswith("::write_plain_or_quoted") and len(t["args"]) > 1 and render(f.sym_operand(t["args"][1])) == "variant") or fx.callee(t).endswith("::open_flow_variant")]
+        nv += len(labels)
+        ctx.check(bool(labels) and all(any(f.dominates(p, w) for p in pre) for w in labels), "ANCHOR", "C14:ANCHOR:variant-node-takes-the-anchor:serialize_%s" % nm, "a staged anchor is emitted for the variant node before its label is written",
+                  "serialize_%s writes the variant's label without consuming a staged anchor first: `&aN` lands on the first scalar of the payload and an alias to the shared enum value reads back as that scalar" % nm, config, ctx.where(f))
+    ctx.floor("ANCHOR.variant-labels", nv, 9, config)
     # the absent branch of a weak anchor writes `null` like any value: after the space owed to a preceding `key:`
     tf = fx.fn("<ser::TupleSer as serde::ser::SerializeTupleStruct>::serialize_field")
     nulls = [b for b, t in tf.calls() if last_seg(fx.callee_decl(t)) == "write_str" and len(t["args"]) > 1 and tf.sym_operand(t["args"][1])[:2] == ("const", "null")]
